@@ -31,7 +31,7 @@ ASSUMPTIONS = [
     "tolerance 1e-12 relative to the data scale max|x| (+|inputmean|) for wmean / calcerr error / deviation "
     "(this is the conditioning-scaled form of '1e-12 relative': sum|w x|/sum w <= max|x|), 1e-12 relative for "
     "1/sqrt(sum w)",
-    "inputmean is a scalar (the code applies float() to it)",
+    "inputmean is a scalar or, for N x d input, one value per column (the two documented forms)",
     "wmedian: if some cumulative weight is within 1e-12*total of the half and the weights are not small integers "
     "(float sums inexact), the value at the tie or the next value carrying weight is accepted",
     "sigma_clip: the index set is compared with the reference loop only when no |x-m| comes within "
@@ -125,7 +125,11 @@ def wmom_cases(draw):
         wcols = [w] + [_weights(draw, n)[1] for _ in range(cols - 1)]
     inputmean = None
     if draw(st.integers(0, 3)) == 0:
-        inputmean = draw(st.one_of(st.floats(-1e3, 1e3), st.integers(-5, 5).map(float), st.integers(-5, 5)))
+        one = st.one_of(st.floats(-1e3, 1e3), st.integers(-5, 5).map(float), st.integers(-5, 5))
+        inputmean = draw(one)
+        if d and draw(st.booleans()):
+            # documented form for N x d input: one value per column
+            inputmean = [float(draw(one)) for _ in range(cols)]
     return {"n": n, "d": d, "arr": enc(arr), "w": enc(wcols), "wshape": wshape, "wkind": wk,
             "vkind": kinds[0], "inputmean": inputmean, "calcerr": draw(st.booleans()),
             "sdev": draw(st.booleans()),
@@ -153,8 +157,9 @@ def check_wmom(case, ctx):
     elif case["container"] == "intarray" and integral:
         a_in = arr.astype("i8")
     kw = {"calcerr": case["calcerr"], "sdev": case["sdev"]}
-    if case["inputmean"] is not None:
-        kw["inputmean"] = case["inputmean"]
+    im = case["inputmean"]
+    if im is not None:
+        kw["inputmean"] = np.array(im, dtype="f8") if isinstance(im, list) and case["container"] != "list" else im
     r = must(es.wmom, a_in, w_in, **kw)
     require(isinstance(r, tuple) and len(r) == (3 if case["sdev"] else 2),
             "wmom returned %r, expected a %d-tuple", type(r), 3 if case["sdev"] else 2)
@@ -166,15 +171,15 @@ def check_wmom(case, ctx):
     if case["inputmean"] is None:
         mean = (w2 * a2).sum(axis=0) / wtot
     else:
-        mean = np.full(ncol, LD(float(case["inputmean"])))
+        mean = np.zeros(ncol, dtype=LD) + np.asarray(im, dtype=LD)
     if case["calcerr"]:
         err = np.sqrt((w2 ** 2 * (a2 - mean) ** 2).sum(axis=0)) / wtot
     else:
         err = 1.0 / np.sqrt(wtot)
     sd = np.sqrt((w2 * (a2 - mean) ** 2).sum(axis=0) / wtot)
     scale = np.abs(arr.reshape(arr.shape[0], -1)).max(axis=0).astype("f8")
-    if case["inputmean"] is not None:
-        scale = scale + abs(float(case["inputmean"]))
+    if im is not None:
+        scale = scale + np.abs(np.asarray(im, dtype="f8"))
     names = ["wmean", "werr", "wsdev"]
     exps = [mean, err, sd]
     for k, got in enumerate(r):
@@ -200,7 +205,8 @@ def classify_wmom(case):
     arr, w = _wmom_inputs(case)
     labs = ["d:%d" % case["d"], "wshape:" + case["wshape"], "wkind:" + case["wkind"], "vkind:" + case["vkind"],
             "calcerr:%s" % case["calcerr"], "sdev:%s" % case["sdev"],
-            "inputmean:%s" % (case["inputmean"] is not None), "container:" + case["container"],
+            "inputmean:%s" % ("none" if case["inputmean"] is None else "per-column" if isinstance(case["inputmean"], list)
+                              else "scalar"), "container:" + case["container"],
             "n:%s" % ("1" if case["n"] == 1 else "2" if case["n"] == 2 else "3+")]
     if (np.asarray(w) == 0).any():
         labs.append("zero-weights")
@@ -327,6 +333,22 @@ def clip_cases(draw, for_get_stats=False):
                 "quant": 0, "outliers": [], "nsig": draw(st.sampled_from([nsx, float(nsx)])),
                 "niter": draw(st.integers(1, 10)), "wmode": "none", "get_err": draw(st.booleans()),
                 "get_indices": draw(st.booleans()), "defaults": False}
+    if draw(st.integers(0, 7)) == 0:
+        # clumps: two or three groups of nearly equal values plus stragglers, clipped at about one deviation.
+        # The window of a later iteration is then not nested in that of an earlier one (the mean moves towards
+        # a clump that was discarded), which separates "discard from the current subset" from "re-select from
+        # all the data".
+        k = draw(st.integers(2, 3))
+        centers = draw(st.lists(st.integers(-20, 20), min_size=k, max_size=k, unique=True))
+        vals = []
+        for c in centers:
+            vals += [float(c + draw(st.sampled_from([0, 0, 0, 1, -1]))) for _ in range(draw(st.integers(1, 4)))]
+        vals += [float(v) for v in draw(st.lists(st.integers(-40, 40), min_size=0, max_size=3))]
+        perm = draw(st.permutations(list(range(len(vals)))))
+        return {"n": len(vals), "exact": [vals[i] for i in perm], "center": 0.0, "sigma": 1.0, "quant": 0,
+                "outliers": [], "nsig": draw(st.sampled_from([1, 1.0, 0.75, 1.25, 1.5, 0.5, 2.0])),
+                "niter": draw(st.integers(2, 10)), "wmode": "none", "get_err": draw(st.booleans()),
+                "get_indices": draw(st.booleans()), "defaults": False, "clumps": True}
     if n <= 30 and draw(st.booleans()):
         case["z"] = draw(st.lists(st.floats(-3.0, 3.0), min_size=n, max_size=n))
     else:
@@ -514,7 +536,8 @@ def classify_clip(case):
     nsig, niter = (4, 4) if case["defaults"] else (case["nsig"], case["niter"])
     ref, decidable, removing = _ref_clip(x, w, nsig, niter)
     labs = ["weights:" + case["wmode"], "outliers:%d" % len(case["outliers"]),
-            "family:" + ("exact-threshold" if "exact" in case else "explicit" if "z" in case else "seeded"),
+            "family:" + ("clumps" if case.get("clumps") else "exact-threshold" if "exact" in case else
+                         "explicit" if "z" in case else "seeded"),
             "niter:%s" % ("0" if niter == 0 else "1" if niter == 1 else "2+"),
             "removing-iterations:%s" % min(removing, 3), "decidable:%s" % decidable,
             "get_err:%s" % case["get_err"], "get_indices:%s" % case["get_indices"]]
@@ -538,11 +561,14 @@ def interp_cases(draw):
             xs.append(xs[-1] + inc)
         vs = draw(st.lists(st.integers(-1000, 1000), min_size=n, max_size=n))
     else:
-        x0 = draw(st.one_of(st.floats(-1e3, 1e3), st.sampled_from([0.0, -1.0, 1e5])))
+        # scale of the abscissae: mostly of order one, one table in four tiny or huge (the relative spacing
+        # stays >= 6e-9, so the table is strictly increasing in float64 at every scale)
+        sc = draw(st.sampled_from([1.0, 1.0, 1.0, 1.0, 1.0, 1.0, 1e-12, 1e-9, 1e-6, 1e6, 1e9]))
+        x0 = sc * draw(st.one_of(st.floats(-1e3, 1e3), st.sampled_from([0.0, -1.0, 1e5])))
         xs = [x0]
         for inc in draw(st.lists(st.one_of(st.floats(1e-3, 1e3), st.sampled_from([1.0, 0.5])),
                                  min_size=n - 1, max_size=n - 1)):
-            nxt = xs[-1] + inc
+            nxt = xs[-1] + sc * inc
             xs.append(nxt)
         vs = draw(st.lists(st.one_of(st.floats(-1e6, 1e6), st.integers(-3, 3).map(float)), min_size=n, max_size=n))
     nq = draw(st.sampled_from([1, 1, 2, 5, 20]))
@@ -563,6 +589,8 @@ def interp_cases(draw):
         else:
             dd = draw(st.one_of(st.floats(1e-3, 1.0), st.floats(1.0, 1e4), st.floats(0.0, 3.0).map(lambda f, s=span: f * s)))
             dd = max(dd, 1e-6)
+            if not integer:
+                dd = dd * sc if dd * sc > 0 else dd
             qs.append([mode, float(xs[0]) - dd if mode == "below" else float(xs[-1]) + dd])
     return {"x": enc(xs), "v": enc(vs), "integer": integer, "q": enc(qs),
             "scalar": nq == 1 and draw(st.booleans()),
@@ -640,6 +668,9 @@ def stats_cases(draw):
         case["w"] = enc(w)
         case["wkind"] = wk
         case["calcerr"] = draw(st.sampled_from([None, True, False]))
+        if draw(st.integers(0, 3)) == 0:
+            # "extra keywords for wmom (if using weights)" are documented to be passed through
+            case["inputmean"] = draw(st.one_of(st.floats(-100.0, 100.0), st.integers(-3, 3).map(float)))
     case["container"] = draw(st.sampled_from(["array", "list", "intarray"]))
     return case
 
@@ -695,6 +726,8 @@ def check_get_stats(case, ctx):
         kw["weights"] = w
         if case["calcerr"] is not None:
             kw["calcerr"] = case["calcerr"]
+        if case.get("inputmean") is not None:
+            kw["inputmean"] = case["inputmean"]
     r = must(es.get_stats, a_in, **kw)
     require(isinstance(r, dict) and all(k in r for k in ("mean", "std", "err", "min", "max")),
             "get_stats result lacks keys: %r", r)
@@ -709,9 +742,15 @@ def check_get_stats(case, ctx):
             m, e, s = _subset_stats(col, None)
         else:
             m, e2, s = _subset_stats(col, w)
+            if case.get("inputmean") is not None:
+                # moments about the supplied mean
+                wl, xl = w.astype(LD), col.astype(LD)
+                m = LD(case["inputmean"])
+                s = np.sqrt((wl * (xl - m) ** 2).sum() / wl.sum())
+                e2 = np.sqrt((wl ** 2 * (xl - m) ** 2).sum()) / wl.sum()
             calcerr = True if case["calcerr"] is None else case["calcerr"]
             e = e2 if calcerr else 1.0 / np.sqrt(w.astype(LD).sum())
-        tol = 1e-12 * float(np.abs(col).max()) + ABS_FLOOR
+        tol = 1e-12 * (float(np.abs(col).max()) + abs(float(case.get("inputmean") or 0.0))) + ABS_FLOOR
         etol = tol if (w is None or case["calcerr"] in (None, True)) else 1e-12 * float(e)
         g = {k: float(np.asarray(r[k]).reshape(-1)[j]) for k in r}
         require(g["min"] == float(col.min()) and g["max"] == float(col.max()), "col %d: min/max=%r/%r, data %r/%r",
@@ -741,7 +780,17 @@ def classify_stats(case):
 @st.composite
 def cov_cases(draw):
     n = draw(st.sampled_from([1, 2, 2, 3, 3, 4, 5, 6]))
-    dk = draw(st.sampled_from(["unit", "decades", "small-int"]))
+    dk = draw(st.sampled_from(["unit", "decades", "small-int", "int-matrix"]))
+    if dk == "int-matrix":
+        # an integer-valued covariance, handed over as an integer array / nested list of ints / float32
+        diag = [float(v) for v in draw(st.lists(st.integers(1, 30), min_size=n, max_size=n))]
+        off = []
+        for i in range(n):
+            for j in range(i + 1, n):
+                lim = int(np.sqrt(diag[i] * diag[j]))
+                off.append(float(draw(st.integers(-lim, lim))))
+        return {"n": n, "diag": enc(diag), "off": enc(off), "dkind": dk, "bad": enc(None),
+                "as": draw(st.sampled_from(["i8", "i4", "list-of-int", "f4", "f8"]))}
     if dk == "unit":
         diag = [1.0] * n
     elif dk == "small-int":
@@ -759,13 +808,14 @@ def cov_cases(draw):
 def _cov(case):
     n = case["n"]
     diag = np.array(dec(case["diag"]), dtype="f8")
-    rho = dec(case["rho"])
+    rho = dec(case["rho"]) if "rho" in case else None
+    off = dec(case["off"]) if "off" in case else None
     c = np.zeros((n, n))
     k = 0
     for i in range(n):
         c[i, i] = diag[i]
         for j in range(i + 1, n):
-            c[i, j] = c[j, i] = rho[k] * float(np.sqrt(diag[i] * diag[j]))
+            c[i, j] = c[j, i] = off[k] if off is not None else rho[k] * float(np.sqrt(diag[i] * diag[j]))
             k += 1
     bad = dec(case["bad"])
     if bad is not None:
@@ -783,19 +833,27 @@ def check_cov(case, ctx):
                 "cov2cor with diagonal entry [%d]=%r must raise ValueError, got %r", bad[0], bad[1], r)
         return
     cin = c.copy()
+    how = case.get("as", "f8")
+    if how in ("i8", "i4", "f4"):
+        cin = c.astype(how)          # exact: the entries are small integers
+    elif how == "list-of-int":
+        cin = np.array([[int(v) for v in row] for row in c.tolist()])
     cor = must(es.cov2cor, cin)
     cor = np.asarray(cor)
     require(cor.shape == (n, n), "cov2cor returned shape %r", cor.shape)
     cl = c.astype(LD)
+    # single-precision input may be processed in single precision (4 ulp of float32); everything else,
+    # integer input included, is held to 1e-12
+    rtol = 5e-7 if how == "f4" else 1e-12
     for i in range(n):
-        require(abs(float(cor[i, i]) - 1.0) <= 1e-12, "cor[%d,%d]=%r, expected 1", i, i, cor[i, i])
+        require(abs(float(cor[i, i]) - 1.0) <= rtol, "cor[%d,%d]=%r, expected 1", i, i, cor[i, i])
         for j in range(n):
             exp = cl[i, j] / np.sqrt(cl[i, i] * cl[j, j])
-            require(_close(cor[i, j], exp, 1e-12 * abs(float(exp)) + ABS_FLOOR),
-                    "cor[%d,%d]=%r, cov/sqrt(cov_ii cov_jj)=%r", i, j, cor[i, j], float(exp))
+            require(_close(cor[i, j], exp, rtol * abs(float(exp)) + ABS_FLOOR),
+                    "cov2cor(%s input): cor[%d,%d]=%r, cov/sqrt(cov_ii cov_jj)=%r", how, i, j, cor[i, j], float(exp))
     back = np.asarray(must(es.cor2cov, cor, np.sqrt(np.diag(c))))
     require(back.shape == (n, n), "cor2cov returned shape %r", back.shape)
-    bad_ = np.abs(back - c) > 1e-12 * np.abs(c) + ABS_FLOOR
+    bad_ = np.abs(back - c) > rtol * np.abs(c) + ABS_FLOOR
     require(not bad_.any(), "cor2cov(cov2cor(C), sqrt(diag C)) differs from C at %r: %r vs %r",
             np.argwhere(bad_).tolist()[:3], back[bad_].tolist()[:3], c[bad_].tolist()[:3])
     # cor2cov against its definition on an independent correlation matrix / error vector
@@ -808,7 +866,7 @@ def check_cov(case, ctx):
 
 def classify_cov(case):
     c, bad = _cov(case)
-    labs = ["n:%d" % case["n"], "diag:" + case["dkind"]]
+    labs = ["n:%d" % case["n"], "diag:" + case["dkind"], "input:" + case.get("as", "f8")]
     if bad is not None:
         labs.append("nt:rejects-nonpositive-diagonal")
         return labs
